@@ -45,10 +45,11 @@ impl Inst {
     pub fn n_classes_used(&self) -> usize {
         self.queue.iter().map(|q| q.1).collect::<BTreeSet<_>>().len()
     }
-    /// Shape classes in which the unchanged tree showed no inversion over the calibration sample.
+    /// Shapes in which the unchanged tree showed no inversion over the calibration samples
+    /// (several 100k decisions): a single request class. With two or more classes the MILP
+    /// encoding is approximate (see DESIGN.md, known findings of C15).
     pub fn is_clean_shape(&self) -> bool {
-        let k = self.n_classes_used();
-        k <= 2
+        self.n_classes_used() <= 1
     }
 }
 
@@ -90,9 +91,11 @@ pub fn gen_inst(rng: &mut Rng, style: u64) -> Inst {
         })
         .collect();
     let n_classes = if style == 2 {
-        if n_workers == 1 { rng.range(1, 2) as usize } else { 1 }
+        1
+    } else if rng.chance(10, 100) {
+        1
     } else {
-        rng.range(1, 4) as usize
+        rng.range(2, 4) as usize
     };
     let mut classes: Vec<[u32; 3]> = Vec::new();
     while classes.len() < n_classes {
@@ -355,7 +358,7 @@ pub fn main(args: &[String]) -> i32 {
     let tmp = std::path::PathBuf::from(std::env::var("HQV_TMP").unwrap_or_else(|_| "/tmp".into())).join(format!("hqv-sched-{}", std::process::id()));
     std::fs::create_dir_all(&tmp).unwrap();
     let _ = &tier;
-    let corpus_size = 6_000;
+    let corpus_size = 20_000;
     let corpus_all = corpus(corpus_size);
     let mine: Vec<Inst> = corpus_all.into_iter().enumerate().filter(|(i, _)| (*i as u64) % nshards == shard).map(|(_, x)| x).collect();
     let n_corpus = mine.len();
@@ -483,8 +486,8 @@ pub fn main(args: &[String]) -> i32 {
         "samples": samples,
         "regress_replayed": n_regress,
         "extra": {"corpus_size": n_corpus, "shapes (workers x classes, b = partly busy): judged/inversions": shape_stats.iter().map(|(k, v)| format!("{k}:{}/{}", v.0, v.1)).collect::<Vec<_>>().join(" ")},
-        "rule": "one real scheduling decision per instance: 1-3 workers (cpus, optionally gpus/mem; idle or partly busy through an earlier decision), 1-4 single-variant single-node request classes, up to 8 priority levels, default min-utilisation; judged only if the solve completed (optimal). Part 1: a fixed seed-independent corpus (4000 instances quick, 40000 thorough), every member judged, failing members identified by instance key. Part 2: seed-dependent random instances; only instances of the shapes that are clean on the unchanged tree (one request class on any cluster; up to two classes on one worker) bear a verdict, the others are counted. Non-trivial = at least one (dispatched lower, waiting higher) pair was examined",
-        "minima": {"decisions_judged": 3000, "pairs_checked": 1000, "decisions_on_partly_busy_cluster": 300, "exception_other_worker_busy": 20},
+        "rule": "one real scheduling decision per instance: 1-3 workers (cpus, optionally gpus/mem; idle or partly busy through an earlier decision), 1-4 single-variant single-node request classes, up to 8 priority levels, default min-utilisation; judged only if the solve completed (optimal). Part 1: a fixed seed-independent corpus of 20000 instances, every member judged in every run, failing members identified by instance key (the members failing on the unchanged tree are listed one by one in known_findings.json). Part 2: seed-dependent random instances; only single-class instances bear a verdict, inversions in the others are counted and classified (they cannot be told apart from the recorded approximation defects). Non-trivial = at least one (dispatched lower, waiting higher) pair was examined",
+        "minima": {"decisions_judged": 15000, "pairs_checked": 5000, "decisions_on_partly_busy_cluster": 3000, "exception_other_worker_busy": 20},
         "assumptions": [
             "the decision is read from the core snapshots before/after run_scheduling (tasks that went from ready to assigned); prefilled tasks (worker backlog) hold no resources and are not counted as dispatched",
             "'fits once the lower-priority tasks dispatched there are left out' = request <= free before the decision minus the requests the decision placed there with priority >= the waiting task's; the exception applies when another worker is large enough by its total resources but lacks free resources under the same rule",
